@@ -209,8 +209,8 @@ CHECK_DEADLOCK FALSE
 
 @check("C01")
 def c01(run):
-    fams = (["pairs", "flat2", "mixed", "members", "faults", "assign"] if run.tier == "quick"
-            else ["pairsall", "flat2", "flat3", "mixed", "members", "faults", "assign", "triples"])
+    fams = (["pairs", "flat2", "mixed", "members", "faults", "assign", "reuse"] if run.tier == "quick"
+            else ["pairsall", "flat2", "flat3", "mixed", "members", "faults", "assign", "reuse", "triples"])
     sts = run.tlc_many([dict(module="MC_Expr", cfg=expr_cfg(fam), name="MC_Expr_" + fam, timeout=1500, workers=2)
                         for fam in fams])
     for fam, st in zip(fams, sts):
@@ -237,11 +237,19 @@ def c09(run):
         path, n = run.records(st)
         run.replay("render", path, name="render-" + fam)
         run.add_samples(path, 1)
+    # every built-in x every argument-kind tuple and boundary count (the families of C11, judged for C09)
+    bfams = ["str2", "arr2", "num"]
+    bsts = run.tlc_many([dict(module="MC_Builtins", cfg=text_cfg(fam).replace("INVARIANTS Gen", "INVARIANTS Total Gen"),
+                              name="MC_Builtins_" + fam, timeout=3000, workers=2) for fam in bfams])
+    for fam, st in zip(bfams, bsts):
+        path, n = run.records(st)
+        run.replay("render", path, name="render-b-" + fam)
     return vp.finish(run, "model_checking",
                      "the kind-confusion matrix: every binary operator x 16 value kinds on both sides (incl. the int64 "
                      "bounds, empty and non-empty strings/arrays/objects, nil), every prefix/postfix operator, index and "
                      "member access x every receiver and key kind, conditions of every kind, and raw templates with "
-                     "absent loop clauses and misplaced directives; the model (total: value, demanded error, or "
+                     "absent loop clauses and misplaced directives; every built-in on its small domain incl. negative and "
+                     "oversized counts; the model (total: value, demanded error, or "
                      "unspecified) predicts each and the harness requires: no panic, no hang, the predicted value or "
                      "error where fixed, and a line >= 1 on every evaluation error", exhaustive=True)
 
@@ -350,7 +358,7 @@ def c13(run):
 
 @check("C11")
 def c11(run):
-    fams = ["str2", "arr2", "num"] if run.tier == "quick" else ["str3", "arr3", "num"]
+    fams = ["str2", "arr2", "num", "twice"] if run.tier == "quick" else ["str3", "arr3", "num", "twice"]
     sts = run.tlc_many([dict(module="MC_Builtins", cfg=text_cfg(fam).replace("INVARIANTS Gen", "INVARIANTS Total Gen"),
                              name="MC_Builtins_" + fam, timeout=3000, workers=2) for fam in fams])
     for fam, st in zip(fams, sts):
